@@ -14,8 +14,13 @@ def _items(nl):
     return nl.nodelist if hasattr(nl, 'nodelist') else list(nl)
 
 
-def check_tiling(nodes, start, end, where, out):
-    """children tile [start, end): no gap, no overlap."""
+def check_tiling(nodes, start, end, where, out, src=None):
+    """children tile [start, end): no gap, no overlap.  With src given (bodies of groups, math
+    and environments) a gap that holds only whitespace is not reported: the statement demands
+    tiling of the top level only, and that nothing but blanks may go missing inside a body is
+    the reading of 'lossless' used here."""
+    def blank(a, b):
+        return src is not None and a <= b and not src[a:b].strip()
     cur = start
     for i, n in enumerate(nodes):
         if n is None:
@@ -25,14 +30,14 @@ def check_tiling(nodes, start, end, where, out):
             out.append(('none-pos:' + where, 'node %d (%s) has pos=%r pos_end=%r'
                         % (i, _kind(n), n.pos, n.pos_end)))
             return
-        if n.pos != cur:
+        if n.pos != cur and not (n.pos > cur and blank(cur, n.pos)):
             what = 'gap' if n.pos > cur else 'overlap'
             prev = _kind(nodes[i - 1]) if i else 'start'
             out.append(('%s:%s:after-%s' % (what, where, prev),
                         'node %d (%s) starts at %d, previous ended at %d'
                         % (i, _kind(n), n.pos, cur)))
         cur = n.pos_end
-    if cur != end:
+    if cur != end and not (cur < end and blank(cur, end)):
         last = _kind(nodes[-1]) if nodes else 'nothing'
         out.append(('end-%s:%s:after-%s' % ('gap' if cur < end else 'overrun', where, last),
                     'last node ends at %d, expected %d' % (cur, end)))
@@ -68,19 +73,6 @@ def _standard_arg_parser(argspec):
     their bodies need not tile (children must still be inside, ordered, non-overlapping)."""
     p = getattr(argspec, 'parser', None)
     return isinstance(p, str) and not p.startswith('e')
-
-
-def loose_body(envnode, specs):
-    """environments whose body or arguments are read by verbatim-type / non-standard parsers
-    (they may gobble the newline after \\begin{..}, or hold the body as an argument)"""
-    if any(not _standard_arg_parser(sp) for sp in specs):
-        return True
-    spec = getattr(envnode, 'spec', None)
-    if spec is not None and (getattr(spec, '_fn_make_body_parser', None) is not None
-                             or type(getattr(spec, 'arguments_parser', None)).__name__
-                             .startswith('_Legacy')):
-        return True
-    return False
 
 
 def check_node(s, n, out, strict=True, loose=False):
@@ -148,7 +140,7 @@ def check_node(s, n, out, strict=True, loose=False):
                 out.append(('anchor:' + k, 'slice %r does not start/end with delimiters %r'
                             % (src, d)))
             elif not loose:
-                check_tiling(body, pos + len(d[0]), pe - len(d[1]), k + '-body', out)
+                check_tiling(body, pos + len(d[0]), pe - len(d[1]), k + '-body', out, src=s)
         check_children_inside(body, pos, pe, k, out)
         for x in body:
             if x is not None:
@@ -189,8 +181,7 @@ def check_node(s, n, out, strict=True, loose=False):
         elif k == 'specials':
             ch = n.specials_chars
             if ch == '\n\n':
-                if not (src.startswith('\n') and src.endswith('\n') and not src.strip()
-                        and src.count('\n') >= 2):
+                if src.strip():
                     out.append(('anchor:paragraph', 'paragraph token covers %r' % (src,)))
             elif not src.startswith(ch):
                 out.append(('anchor:specials', 'slice %r does not start with %r' % (src, ch)))
@@ -220,8 +211,10 @@ def check_node(s, n, out, strict=True, loose=False):
             if bitems:
                 first = next((x for x in bitems if x is not None), None)
                 if first is not None and first.pos is not None:
-                    check_tiling(bitems, first.pos, pos + m2.start(), 'environment-body', out)
-                    if start is not None and first.pos != start and not loose_body(n, specs):
+                    check_tiling(bitems, first.pos, pos + m2.start(), 'environment-body', out,
+                                 src=s)
+                    if start is not None and first.pos > start and s[start:first.pos].strip() \
+                            and all(_standard_arg_parser(sp) for sp in specs):
                         gap = s[start:first.pos]
                         out.append(('gap:environment-body:before-first-node',
                                     'body of %s starts at %d but its first node at %d (%r dropped)'
